@@ -29,11 +29,12 @@ STUB = ["Poisson counts and jump-time uniforms scripted at the RNG seam (the rea
         "gmpy2.qdiv, tqdm"]
 ASSUMPTIONS = ["grid states (C13) and sampler outputs (C02) are taken as given: jump sizes are read from the recorded state "
                "increments and the grid", "float comparison rtol 1e-11 (sums may associate differently)",
-               "copula (n-d) simulators are not covered by this check"]
+               "copula simulators: 2-d chain and its coupled version at level 1, single interval (the copula fixed-date "
+               "projector raises for several dates)"]
 TIERS = {
     "quick": {"worlds": 500, "wall": 500, "shrink_budget": 60,
               "required_probes": ["c15.path_checked", "c15.zero_jump_path", "c15.multi_date", "c15.maxstep_mode",
-                                  "c15.coupled_path", "c15.gap_gt_eps"]},
+                                  "c15.coupled_path", "c15.gap_gt_eps", "c15.nd_path_checked"]},
     "thorough": {"worlds": 20000, "wall": 3300, "shrink_budget": 150,
                  "required_probes": ["c15.path_checked", "c15.zero_jump_path", "c15.multi_date", "c15.maxstep_mode",
                                      "c15.coupled_path", "c15.gap_gt_eps", "c15.tail_gap_gt_eps", "c15.burst"]},
@@ -76,6 +77,19 @@ def _install_probes():
 
 def generate(seed, tier="quick"):
     r = sub_rng(seed, "c15.scenario")
+    if r.random() < 0.2:
+        # 2-d Levy-copula chain and its coupled version (scenarios.c15nd)
+        from . import c15nd
+
+        proc = c15nd.generate_process(r)
+        mode = r.choice(["fixed", "jump", "maxstep", "maxstep"])
+        T = r.choice([0.5, 1.0, 2.0])
+        npaths = r.choice([4, 6])
+        counts = [[r.choice([0, 0, 1, 2, 3, 6, 12])] for _ in range(npaths)]
+        return {"world_seed": seed, "process": proc, "mode": mode, "maturity": T, "dates": 2, "npaths": npaths,
+                "counts": counts, "eps": T * r.choice([0.02, 0.1, 0.3, 0.5, 0.9, 1.5]) if mode == "maxstep" else None,
+                "time_style": [r.choice(["spread", "early", "late", "cluster"]) for _ in range(npaths)],
+                "level": 1 if proc["kind"] == "copula_coupling" else 0, "useed": r.randrange(10 ** 9)}
     kind = r.choice(["levy", "chain", "chain", "coupling", "coupling"])
     if kind == "levy":
         proc = {"kind": "levy", "model": r.choice(B.DIRECT_MODELS)}
@@ -142,6 +156,8 @@ def shrink_candidates(sc):
         c = mod(dates=3)
         c["counts"] = [row[:2] for row in sc["counts"]]
         yield c
+    if sc["process"]["kind"] in ("copula", "copula_coupling"):
+        return
     if sc["level"] > 1:
         yield mod(level=1)
     if sc["process"].get("grid", {}).get("kind") not in (None, "fixed"):
@@ -164,6 +180,10 @@ def _close(a, b, scale=1.0):
 
 
 def execute(wd, sc):
+    if sc["process"]["kind"] in ("copula", "copula_coupling"):
+        from . import c15nd
+
+        return c15nd.execute(wd, sc)
     _install_probes()
     V, errors = [], []
     wd.record_values = True
